@@ -260,6 +260,8 @@ class HostBase:
                 return len(v.items) > 0
             return self.ctx.choose(("truth", "queue", v.id, len(v.log)), [True, False])
         if isinstance(v, Term):
+            if v.op == "strpart":
+                self.ctx.atom_info[("truth", "term", v.id)] = {"kind": "nonempty", "recv": v}
             return self.ctx.choose(("truth", "term", v.id), [True, False])
         if isinstance(v, (Source, Stream)):
             return self.truth(self.length(v, node), node)
